@@ -5,6 +5,16 @@ V = os.path.dirname(os.path.dirname(os.path.abspath(__file__)))
 props = [json.loads(l) for l in open(os.path.join(V, "properties.jsonl"))]
 
 CLAIMS = {
+ "C16": dict(
+   text="The entry points differ in one step: the script path (script file, function body, sourced file) passes each line through scripting::expand_args = tokens_to_line . expand_args_in_tokens . parse_line before run_command_line, -c does not. Lean 4 theorem C16_rerender_id: for every command of the C01 domain (plain word + single/double-quoted arguments of any content the style can express) and every positional-parameter list, the script path reproduces the line character for character, hence the same plans (C16_same_plan). Unquoted backslash escapes are refuted by kernel-checked witnesses (KF-C16-unquoted-escape). Tied to /repo by in-process streams on expand_args / expand_args_for_single_token / is_args_in_token and by running generated lines through four entry points of the real binary, compared pairwise with -c on argv records, created files and status.",
+   note="Trusted: Lean kernel; hand-written model; the interactive-prompt entry (trim_multiline_prompts, !! expansion) is not yet compared (needs the pty driver); lines with positional parameters are C15's business; a function call's status is excluded from the comparison (C15 finding).",
+   technique="Lean 4 proof (tokenizer round trip composed with wrap_sep_string lemmas) + model/implementation correspondence and entry-point differential",
+   design="DESIGN.md §6 C16"),
+ "C17": dict(
+   text="Lean 4 theorems over the model of expand_alias and the alias/unalias builtins: C17_expand (for every alias table and every list of pipeline stages not starting with xargs, exactly the command word of each stage is replaced by the words of its value, every other token untouched; replacement is structurally once - C17_self), finite-map laws for define/redefine/unalias (C17_unalias, lookup_*). Findings with witnesses: the word after xargs is expanded (pinned by a baseline test), listings of values containing ' or > do not recreate the alias. Tied to /repo by in-process streams: expand_alias on generated stage lists, random sequences of define (3 spellings)/redefine/unalias/list/show/use through the real builtins, and the listing fed back to a fresh shell.",
+   note="Trusted: Lean kernel; hand-written model; the listing round trip is checked by correspondence only (no theorem); process-level use through the binary is covered by C16/C01 streams, not here.",
+   technique="Lean 4 proof (induction over tokens with the head-of-stage flag; map laws) + model/implementation correspondence check",
+   design="DESIGN.md §6 C17"),
  "C13": dict(
    text="Lean 4 theorem C13_dq_var: a plain command whose arguments are double-quoted \"$N\" / \"${N}\" deliveries is expanded and planned as one foreground stage without redirections, each value arriving verbatim as exactly one argument - for every environment and every value (operators, blanks, globs, braces, $ included) that does not itself spell a command substitution. The excluded values and the unquoted form are genuine defects, refuted by kernel-checked witnesses (a value `cmd` is executed inside double quotes; X='|' builds a pipeline; X='a>b' redirects) and listed as three known-finding classes. Tied to /repo by in-process plan streams: 40 operator-bearing values x 4 delivery forms x 2 quotings x 4 positions plus random mixes, and double-quoted deliveries through the real binary with an argv helper and a created-files check.",
    note="Trusted: Lean kernel; hand-written model; command outputs are an oracle (scripted in-process); filename-expansion deliveries are exercised by C12's streams, not by this theorem; unquoted deliveries are only checked for plan shape.",
